@@ -10,6 +10,7 @@ MCReqsFull  == [ae : {"yes", "no", "refused"}, ct : {"match", "nomatch", "absent
                 cl : {FALSE, TRUE}, acc : {"other", "sse"}, method : {"GET", "HEAD"}]
 MCReqsMid   == [ae : {"yes", "no", "refused"}, ct : {"match", "nomatch"}, enc : {"", "br"},
                 cl : {FALSE, TRUE}, acc : {"other"}, method : {"GET"}]
+MCReqsPair  == [ae : {"yes", "refused"}, ct : {"match", "nomatch"}, enc : {"", "br"}, cl : {TRUE}, acc : {"other"}, method : {"GET"}]
 MCReqsSmall == [ae : {"yes", "no"}, ct : {"match"}, enc : {""}, cl : {TRUE}, acc : {"other"}, method : {"GET"}]
 MCOne == {1}
 MCTwo == {1, 2}
